@@ -215,7 +215,7 @@ func c04(r *vc.Run) int {
 		}
 		defer org.close()
 		site := &genSite{o: org, port: org.Port, rng: pipeRand(r.Seed, "c04site", i)}
-		site.build(24+i%12, 1)
+		site.build(24+i%12, 2) // two hubs: the rows of the second follow the unparsable row of the first
 		// make fetches slow enough for kills to land in the middle of things
 		drng := pipeRand(r.Seed, "c04delay", i)
 		org.mu.Lock()
